@@ -162,3 +162,117 @@ def rule_grade(prop):
         return r
     rule.__name__ = 'rule_grade_' + prop
     return rule
+
+
+# ------------------------------------------------------------------ ALIAS
+ALIAS_TESTED = ['_mul', '_truediv', '_exp', '_log', '_sqrt', '_square', '_reciprocal', '_absolute', '_negative', '_sign']
+INPLACE = ['__iadd__', '__isub__', '__imul__', '__itruediv__']
+
+
+def _snapshot_idiom(fi, W, R):
+    """`if numpy.may_share_memory(<W>, <r>): <r> = <r>.copy()` for a local r bound to R"""
+    for n in walk_no_nested(fi.node):
+        if isinstance(n, ast.If) and any(isinstance(c, ast.Call) and (dotted_name(c.func) or '').split('.')[-1] in ('may_share_memory', 'shares_memory')
+                                         for c in ast.walk(n.test)):
+            for b in n.body:
+                if isinstance(b, ast.Assign) and isinstance(b.value, ast.Call) and isinstance(b.value.func, ast.Attribute) \
+                        and b.value.func.attr == 'copy' and norm(b.targets[0]) == norm(b.value.func.value):
+                    return norm(b.targets[0])
+    return None
+
+
+def _aliased_call_sites(ctx):
+    """calls of kernels that pass the same expression as `out` and as an input"""
+    out = []
+    m = ctx.model
+    for fi in m.all_functions():
+        if not fi.module.startswith('algopy.utpm'):
+            continue
+        for c in walk_no_nested(fi.node):
+            if not (isinstance(c, ast.Call) and isinstance(c.func, ast.Attribute) and c.func.attr.startswith('_') and not c.func.attr.startswith('__')):
+                continue
+            callee = m.lookup_method('UTPM', c.func.attr)
+            if callee is None:
+                continue
+            params = callee.value_params()
+            bound = {}
+            for i, a in enumerate(c.args):
+                if i < len(params):
+                    bound[params[i]] = a
+            for k in c.keywords:
+                if k.arg:
+                    bound[k.arg] = k.value
+            o = bound.get('out')
+            if o is None:
+                continue
+            for p, a in bound.items():
+                if p != 'out' and norm(a) == norm(o) and isinstance(a, (ast.Name, ast.Attribute)):
+                    out.append((fi, c, callee, p))
+    return out
+
+
+def rule_alias(ctx):
+    r = RuleResult('ALIAS', 'where the library promises alias safety (in-place operators with the right operand aliasing the left, kernels called '
+                            'with out aliasing an input, the kernels covered by Test_aliasing) no coefficient of the input is read after the '
+                            'aliased output coefficient of the same index has been written (later statement, or later iteration in the '
+                            'loop\'s actual order)')
+    from .grading import alias_hazards
+    m = ctx.model
+    res = analyse_all(ctx)
+    ci = m.cls('RawAlgorithmsMixIn')
+
+    def check(ka, fi, W, R, why):
+        hz = alias_hazards(ka, W, R)
+        if hz:
+            for wst, rnode, wit in hz[:3]:
+                r.bad(Finding('ALIAS', fi.fq, '%s<-%s:%s' % (W, R, norm(wst)[:80]),
+                              '%s (%s): `%s` writes %s, and `%s` later reads %s at the same coefficient index (%s): if %s aliases %s the read '
+                              'sees the new value' % (fi.qualname, why, norm(wst)[:70], W, norm(rnode)[:50], R,
+                                                      ', '.join('%s=%s' % (k.split('@')[0], v) for k, v in sorted(wit.items()) if not k.endswith("'"))[:80], R, W),
+                              fi.file, getattr(wst, 'lineno', fi.lineno)))
+        else:
+            nw = len([w for w in ka.wlog if w[0] == W])
+            nr = len([x for x in ka.rlog if x.arr == R])
+            r.ok(construct='%s:%s<-%s' % (fi.fq, W, R), nontrivial=bool(nw and nr),
+                 sample='%s (%s): %d write(s) of %s vs %d read(s) of %s: no read-after-write on an equal index' % (fi.qualname, why, nw, W, nr, R))
+
+    # (a) in-place operators
+    for name in INPLACE:
+        key = 'UTPM.' + name
+        if key not in res:
+            r.unknown(key, 'in-place operator not analysed by E2')
+            continue
+        ka = res[key][1]
+        fi = ka.fi
+        snap = _snapshot_idiom(fi, 'self.data', 'rhs.data')
+        readers = [g for g in ka.gvars if g in ('rhs.data', 'rhs_data') or getattr(ka, 'alias_of', {}).get(g) in ('rhs.data',)]
+        for R in sorted(set(readers)):
+            if snap is not None and R == snap:
+                r.ok(construct=fi.fq + ':snapshot', nontrivial=True,
+                     sample='%s: `%s` is replaced by a copy when it may share memory with self.data (snapshot idiom)' % (fi.qualname, snap))
+                continue
+            check(ka, fi, 'self.data', R, 'x op= x')
+    # (b) kernels of Test_aliasing: every out-role array against every input array
+    for k in ALIAS_TESTED:
+        if k not in res:
+            r.unknown(k, 'kernel not analysed by E2')
+            continue
+        ka = res[k][1]
+        fi = ka.fi
+        outs = [g.name for g in ka.gvars.values() if g.role == 'out']
+        ins = [g.name for g in ka.gvars.values() if g.role == 'in']
+        for W in outs:
+            for R in ins:
+                check(ka, fi, W, R, 'out aliasing %s' % R)
+    # (c) aliased internal call sites
+    for caller, c, callee, p in _aliased_call_sites(ctx):
+        k = callee.name
+        if k not in res:
+            r.note('%s calls %s with out aliasing `%s`; callee outside the E2 kernel table' % (caller.qualname, k, p))
+            continue
+        ka = res[k][1]
+        outs = [g.name for g in ka.gvars.values() if g.role == 'out']
+        for W in outs:
+            check(ka, ka.fi, W, p, 'called from %s as `%s`' % (caller.qualname, norm(c)[:50]))
+    r.floor = 15
+    return r
